@@ -138,6 +138,42 @@ func newSys(u universe, m uint16) *sys {
 			}
 		})
 	}
+	// ReplaceNextHopsEnc (used by the RIB): atomically set the whole next-hop set of a prefix;
+	// an empty set behaves like Clear
+	for _, p := range u.prefixes {
+		p := p
+		sets := []map[uint64]uint64{{}, {u.faces[0]: u.costs[len(u.costs)-1]}}
+		if len(u.faces) > 1 {
+			sets = append(sets, map[uint64]uint64{u.faces[0]: u.costs[0], u.faces[1]: u.costs[len(u.costs)-1]})
+		}
+		for _, set := range sets {
+			set := set
+			keys := []string{}
+			for f, c := range set {
+				keys = append(keys, fmt.Sprintf("f%d:c%d", f, c))
+			}
+			sort.Strings(keys)
+			add(fmt.Sprintf("Replace(%s,{%s})", p, strings.Join(keys, ",")), func(in *inst) {
+				cp := func() map[uint64]uint64 {
+					m := map[uint64]uint64{}
+					for f, c := range set {
+						m[f] = c
+					}
+					return m
+				}
+				in.tree.ReplaceNextHopsEnc(nm(p), cp())
+				in.ht.ReplaceNextHopsEnc(nm(p), cp())
+				if len(set) == 0 {
+					if e := in.ref[p]; e != nil {
+						e.nh = map[uint64]uint64{}
+						gc(in, p)
+					}
+					return
+				}
+				ent(in, p).nh = cp()
+			})
+		}
+	}
 	for _, p := range u.prefixes {
 		p := p
 		for _, st := range u.strats {
